@@ -15,7 +15,7 @@ PROP = 'C09'
 LEVEL = 'exploration'
 CLASSES = ['tiny', 'no_control', 'no_treatment', 'all_excluded', 'empty_admitted', 'size_beyond',
            'ratio_unsat', 'share_budget_impossible', 'n_geos_max_2', 'long_test', 'window_exact',
-           'hostile_matrix', 'iroas_zero', 'fixed_overflow', 'integral_floats', 'random']
+           'hostile_matrix', 'iroas_zero', 'fixed_overflow', 'integral_floats', 'late_start_geo', 'random']
 RULE = ('Each case draws one hostile input class (%s), builds fresh data / parameter / matched-markets '
         'objects and runs exhaustive_search and greedy_search at the client boundary. Series are never '
         'constant and the analysis window always holds >= n_test + 3 points, so the property applies to '
@@ -119,7 +119,21 @@ def make_hostile(r, g, cls, tier):
         kw['n_designs'] = float(kw['n_designs'])
       else:
         lo, hi = kw.get(f, (1, r.randrange(1, G + 1)))
-        kw[f] = (float(lo), float(hi))
+        kw[f] = r.choice([(float(lo), float(hi)), (int(lo), float(hi)), (float(lo), int(hi))])
+  elif cls == 'late_start_geo':
+    # a geo that only starts reporting a few days before the end of the window (zero before): its series is not
+    # constant, but the part of it that precedes the last n_test dates is
+    pn = case['panel']
+    i = r.randrange(len(pn['ids']))
+    k = r.randrange(1, max(2, kw['n_test'] + 1))
+    pn['values'][i, :-k] = 0.0
+    if r.random() < 0.5:
+      pn['present'][i, :-k] = False
+      if not pn['present'][:, 0].any():
+        pn['present'][(i + 1) % len(pn['ids']), 0] = True
+    case['frame'] = gen.panel_frame(pn, r, shuffle=True)
+    kw.pop('budget_range', None)
+    kw.pop('treatment_share_range', None)
   elif cls == 'fixed_overflow':
     case['elig_rows'] = rows_from([('t_fixed', 3), ('c_fixed', 3), ('ct', 2), ('ctx', 1)])
     kw['treatment_geos_range'] = (1, r.choice([1, 2]))
